@@ -206,3 +206,85 @@ CL03_FS_TABLE = {
     _SP + 'NISPMultiSecrets::nispMultiSecrets_verify_proof': [
         ('digest::Digest::digest', ['~a_bases', 'signer_pk.b', 'commitment.value', 'self.t', '~unrevealed_message_indexes'], [])],
 }
+
+
+# ------------------------------------------------------------------ octet-string ingredients enter the hashed buffers whole
+APPENDERS = ('std::vec::Vec::<T, A>::extend_from_slice', 'std::iter::Extend::extend', 'std::vec::Vec::<T, A>::extend', 'std::vec::Vec::<T, A>::append')
+
+
+def rule_whole_ingredients(ctx, table=None, cfg='prod-all', min_sites=8):
+    """an octet string supplied by the caller (header, presentation header, api id, key_info, key_dst, key_material) is appended to a hashed
+    buffer as it is: the appended operand is the caller's own parameter, reached through identity steps only (Option defaulting, borrows,
+    copies) at every level of the call chain.  A trimmed, truncated, re-encoded or otherwise normalised copy makes distinct inputs hash alike
+    (or equal inputs differ from what the other party hashes) for exactly the inputs the normalisation touches."""
+    from flow import walk
+    from rf_consts import _trace_identity, _mut_borrowed
+    prog, eng = ctx.prog(cfg), ctx.eng(cfg)
+    table = table or BBS_TABLE
+    n = 0
+    seen = set()
+    for root in sorted(table):
+        if root not in prog.bodies:
+            raise AnchorMissing(root)
+        rb = prog.bodies[root]
+        octet_params = {k for k in range(1, rb.arg_count + 1)
+                        if rb.local_ty(k).replace('std::option::Option<', '').rstrip('>').strip() in ('&[u8]', "&'static [u8]")}
+        if not octet_params:
+            continue
+        for fr in walk(eng, root, include_closures=True):
+            if fr.path != root and fr.path in table:
+                continue
+            if any(c in table for c in fr.chain()[1:]):
+                continue
+            for bi, t in fr.body.calls():
+                cal = t.get('callee') or ''
+                ops = []
+                if cal in APPENDERS and len(t['args']) == 2:
+                    ops = [t['args'][1]]
+                elif cal.endswith('::concat') and t['args'] and t['args'][0]['k'] in ('copy', 'move'):
+                    # [a, b, c].concat(): the elements of the array literal
+                    l = fr.fd.resolve_place(t['args'][0]['pl'])[0]
+                    for kind, bj, x in fr.fd.defs.get(l, []):
+                        if kind == 'assign' and x['rv']['k'] == 'agg' and x['rv'].get('ak') in ('array',):
+                            ops = list(x['rv']['ops'])
+                for o in ops:
+                    if o['k'] not in ('copy', 'move'):
+                        continue
+                    atoms = fr.lift(fr.fd.read_op(o))
+                    ps = {a for a in atoms if a[0] == 'p'}
+                    others = {a for a in atoms if a[0] not in ('p', 'c')}
+                    if len(ps) != 1 or others:
+                        continue
+                    (_, k, path) = next(iter(ps))
+                    if k not in octet_params or path:
+                        continue
+                    # identity chain up the frames
+                    cur_fr, cur_op, ok, why = fr, o, True, None
+                    for _ in range(12):
+                        if isinstance(cur_fr, type(fr)) and cur_fr.body.kind == 'Closure':
+                            ok, why = None, 'appended inside a closure (not judged)'
+                            break
+                        par, chain, w = _trace_identity(cur_fr.fd, cur_fr.body, cur_op)
+                        if par is None:
+                            ok, why = False, '%s: %s' % (cur_fr.path.split('::')[-1], w)
+                            break
+                        if _mut_borrowed(cur_fr.fd, cur_fr.body, set(chain)):
+                            ok, why = False, '%s: a copy on the way is mutably borrowed' % cur_fr.path.split('::')[-1]
+                            break
+                        if cur_fr.parent is None:
+                            ok = (par == k)
+                            why = None if ok else 'reaches parameter %s instead' % cur_fr.body.local_name(par)
+                            break
+                        if cur_fr.call is None or par - 1 >= len(cur_fr.call['args']):
+                            ok, why = None, 'call chain not resolvable'
+                            break
+                        cur_op = cur_fr.call['args'][par - 1]
+                        cur_fr = cur_fr.parent
+                    key = '%s#whole:%s@%s' % (root, rb.local_name(k), fr.path.split('::')[-1])
+                    if key in seen:
+                        continue
+                    seen.add(key)
+                    n += 1
+                    yield Ob('RF-C', key, ok, 'the caller\'s `%s` is appended to the hashed buffer as it is (no trimmed / truncated / re-encoded copy)' % rb.local_name(k),
+                             '%s L%s' % (fr.body.file(), t['line']), fact={'why': why}, expected='identity chain to the parameter')
+    yield Ob('RF-C', 'crate#whole-ingredient-census', n >= min_sites, 'octet-string ingredients examined', '', fact=n, expected='>= %d' % min_sites, nontrivial=False)
